@@ -1411,7 +1411,7 @@ def run_case(ctx, case):
         run_dec(ctx, case)
     elif kind == "run":
         run_alg(ctx, case)
-    elif kind in ("acq", "covrun", "twospace", "alias"):
+    elif kind in ("acq", "covrun", "twospace", "alias", "locate"):
         _cov.run_cov(ctx, case)
     elif kind == "thompson":
         _th.run_thompson(ctx, case)
